@@ -46,14 +46,14 @@ CLAIMS = {
  "C07": dict(
    text="Theorems: atomic commit points imply linearizability w.r.t. the counter/swap specification (C07_commit_points_linearize), checker soundness, and the sum formula (final = "
         "initial + sum of deltas in any order). Executed: 2-4 concurrent callers through 7 entry points (embedded owner/non-owner/backup, cluster client, raw RESP, pipeline) in "
-        "Incr/Decr, GetPut and mixed modes; closed-form predicates (sum, single chain) and the linearizability checker inside Coq on every history.",
+        "Incr/Decr, GetPut and mixed modes; closed-form predicates (sum, single chain) and the linearizability checker inside Coq on every history. Incr on counters that cannot be read with ReadQuorum copies (quorum harness) must be refused (C07_incr_refused_when_unreadable).",
    note=TB + "the owner-side per-key mutex makes Get;compute;Put atomic (Go runtime), attacked by the concurrent runs; IncrByFloat is only exercised sequentially (float text is an oracle).",
    ref="DESIGN.md 9 C07"),
  "C08": dict(
    text="Theorems over Model/DMap.v: Lock succeeds iff the key is free or its holder's timeout elapsed and otherwise changes nothing; at most one token holds a key; Unlock/Lease with a "
         "token that is not the holder's fail and change nothing; a timed lock is held exactly until now+timeout through any path, an untimed one until unlocked; checker soundness for "
         "the lock specification; the known race D23 is proved as a _refuted witness. Executed: scripted token/timeout sequences through 6 paths + 3-6 competing lockers with a "
-        "critical-section occupancy counter and the lock-spec linearizability checker.",
+        "critical-section occupancy counter and the lock-spec linearizability checker. Locks whose entries sit in older tables after the fragment rolled over; a Lease that shortens a timed lock.",
    note=TB + "D23 (Unlock/Lease not atomic w.r.t. expiry + re-acquisition) is an open known finding; real time is compared with a 40 ms margin; the 10 ms retry timer of tryLock is not modelled.",
    ref="DESIGN.md 9 C08"),
  "C10": dict(
@@ -71,7 +71,7 @@ CLAIMS = {
    text="Theorems (all R, W, RQ, reachable subsets, copy layouts): a sync Put is acknowledged iff 1+reachable >= W and exactly the reachable holders store it; "
         "Get returns a value only with >= RQ copies and ErrReadQuorum when the key exists on too few reachable holders; below MemberCountQuorum every "
         "non-exempt command and NewDMap answer the cluster-quorum error and change nothing. Executed on real 3-4 member clusters over the full (R,W,RQ) grid "
-        "with every subset of unreachable backups (RESP gate) and below-quorum members on every run.",
+        "with every subset of unreachable backups (RESP gate) and below-quorum members on every run. Incr over the same copy layouts (the read half under the read quorum: an unreadable counter is refused, C07_incr_refused_when_unreadable).",
    note=TB + "INTERNAL.NODE.UPDATEROUTING is exempt from the member-count precondition by design (stated in the theorem); a Get of a key that exists nowhere "
         "returns ErrReadQuorum when RQ>=2 (pinned by an upstream test, stated in C05_read_iff).",
    ref="DESIGN.md 9 C05, docs/DESIGN-C05-C06.md"),
@@ -79,21 +79,21 @@ CLAIMS = {
    text="Theorems: sortVersions is a descending permutation whose head is the last maximal element; Get returns one of the copies with maximal timestamp; "
         "merging fragments in any permutation with any re-deliveries keeps per key a copy of maximal timestamp (exactly the newest one when timestamps are "
         "distinct); read-repair brings the owner's and every reachable stale backup copy to the winner. Executed on real clusters over an exhaustive small "
-        "space of copy layouts (ties, missing copies, RR on/off) and all merge orders of 3 fragments on every run.",
+        "space of copy layouts (ties, missing copies, RR on/off) and all merge orders of 3 fragments on every run. Layouts with an expired newest copy on the owner (only the read's result is judged there).",
    note=TB + "the read-repair/Delete race (D24) is an open known finding with a _refuted theorem and a deterministic witness; msgpack/roaring serialisation are oracles.",
    ref="DESIGN.md 9 C06, docs/DESIGN-C05-C06.md"),
  "C16": dict(
    text="Theorems: every parser of internal/protocol is total (never indexes past the argument vector, every option loop terminates within length+1 iterations) "
         "for every argument vector; mux+wrapper dispatch is total; handlers reject out-of-range partition ids before any dereference. Executed against the real "
         "parsers (in-process, recover+watchdog) on all vectors up to a bound over a 24-token alphabet and against a real member in a child process over TCP "
-        "(command vectors, crafted payloads, random byte streams) on every run.",
+        "(command vectors, crafted payloads, random byte streams) on every run. Stateful sequences include an atomic operation that fails on the stored value first: the following commands on that key must be answered.",
    note=TB + "strconv float parsing is an oracle; ASCII case folding only; redcon's RESP reader is a dependency (open known finding: multibulk-count spin).",
    ref="DESIGN.md 9 C16, docs/DESIGN-C16.md"),
  "C17": dict(
    text="Theorems: entry encode/decode round trip for every well-formed entry; every integer width/signedness reads back equal through the RESP text codec and "
         "out-of-range text is rejected; bool/duration/bytes identity; byte-level table: get-after-put and get-after-put_raw return the entry, other hkeys unchanged, "
         "too-long keys and too-large entries are rejected leaving the table unchanged. Executed: encoder/scan differential, typed round trips through 4 client "
-        "paths with replication and after migration, boundary keys and entry sizes on every run.",
+        "paths with replication and after migration, boundary keys and entry sizes on every run. Batched pipelines (2-4 Put/GetPut per Exec), full iterations whose keys must be the stored keys byte for byte, and rejected writes under asynchronous replication (no copy anywhere).",
    note=TB + "floats, time.Time and BinaryMarshaler are tested only (strconv/time are oracles).",
    ref="DESIGN.md 9 C17, docs/DESIGN-C17-C18.md"),
  "C18": dict(
@@ -103,18 +103,18 @@ CLAIMS = {
    note=TB + "Go's memory model (copy semantics of make/copy) is assumed; FutureGet.Result() called twice is not exercised.",
    ref="DESIGN.md 9 C18, docs/DESIGN-C17-C18.md"),
  "C09": dict(
-   text="Theorems over Model/DMap.v with the clock as input: an expired, not yet evicted entry is indistinguishable from an absent one for every operation (C09_expired_is_absent: a simulation between states that differ only in expired entries), background eviction passes placed anywhere change no result (C09_eviction_is_invisible), a key with relative expiry ms set at t is readable at every t'<t+ms and at no t'>=t+ms, and the ttl rules (plain Put/GetPut reset, Incr/Decr keep, Expire replaces and keeps the value). Executed on real clusters: every ttl source x probe x client path around a 240 ms deadline, with eviction forced or not.",
+   text="Theorems over Model/DMap.v with the clock as input: an expired, not yet evicted entry is indistinguishable from an absent one for every operation (C09_expired_is_absent: a simulation between states that differ only in expired entries), background eviction passes placed anywhere change no result (C09_eviction_is_invisible), a key with relative expiry ms set at t is readable at every t'<t+ms and at no t'>=t+ms, and the ttl rules (plain Put/GetPut reset, Incr/Decr keep, Expire replaces and keeps the value). Executed on real clusters: every ttl source x probe x client path around a 240 ms deadline, with eviction forced or not. An expired newest copy on the owner next to older copies without a deadline elsewhere (copy layouts of the C06 harness).",
    note=TB + "real clocks are compared with a 40 ms margin (closer runs are discarded and counted); durations are multiples of 1 ms; MaxIdleDuration is C10's (no_idle hypothesis).",
    ref='DESIGN.md 9 C09'),
  "C19": dict(
-   text="Theorems over Model/DMap.v (state keyed by member, kind, DMap name, key): Destroy leaves no primary or backup copy of the DMap on any member, every key reads not-found and the DMap accepts new writes (C19_destroy_complete); no operation on DMap A changes any copy of a DMap with a different name, whatever the keys (C19_frame); eviction only removes invisible entries. Executed on real clusters of 1-3 members: pairs of DMaps incl. name+key concatenation collisions and A vs 'dmap.'+A, interleaved operations, Destroy through 4 paths, eviction passes; B is read and dumped after every step on A.",
+   text="Theorems over Model/DMap.v (state keyed by member, kind, DMap name, key): Destroy leaves no primary or backup copy of the DMap on any member, every key reads not-found and the DMap accepts new writes (C19_destroy_complete); no operation on DMap A changes any copy of a DMap with a different name, whatever the keys (C19_frame); eviction only removes invisible entries. Executed on real clusters of 1-3 members: pairs of DMaps incl. name+key concatenation collisions and A vs 'dmap.'+A, interleaved operations, Destroy through 4 paths, eviction passes; B is read and dumped after every step on A. Destroy after a fail-over and through a cluster client created before a join: no copy of any kind may be left on any member.",
    note=TB + '64-bit hash collisions between different keys of one DMap are outside the property; the janitor race D22 is not modelled.',
    ref='DESIGN.md 9 C19'),
  "C11": dict(
    text="Theorems over the Gallina model of internal/kvstore (record level): for every operation sequence, table size and map-iteration "
         "order the store refines a map (C11_refines_map), compaction is the identity and terminates within a stated bound, Stats.Length / "
         "Range enumerate exactly the present keys, Export/Drop remove exactly one table's records. The model is executed against the real "
-        "kvstore on exhaustive (length<=3/5 over a 10-op alphabet) and seeded random sequences on every run, inside Coq (vm_compute).",
+        "kvstore on exhaustive (length<=3/5 over a 10-op alphabet) and seeded random sequences on every run, inside Coq (vm_compute). Iterations kept open page by page across deletes and compaction (every entry present and untouched throughout is handed out); stores forked from an engine instance of another table size.",
    note=TB + "hkeys are inputs (64-bit hash not modelled); Go map iteration order in compaction/import is an oracle reconstructed from the run; "
         "the byte layout of one record is Model/Codec.v (round trip proved), the slab is not modelled byte by byte here.",
    ref="DESIGN.md 9 C11"),
@@ -127,7 +127,7 @@ CLAIMS = {
         "found on either, each once, and the whole iteration yields exactly the keys of all partitions without repetition "
         "(C12_iterator_exactly_once). Executed against the real kvstore on shaped histories (holes, recycled tables) with COUNT in "
         "{1,2,3,10,1000}, and against real 1-3 member clusters (cluster client and embedded iterators, COUNT/MATCH variants) where the "
-        "model has to reproduce the exact key sequence, on every run.",
+        "model has to reproduce the exact key sequence, on every run. Iterations kept open across compaction; stores forked from an engine instance of another table size (D47).",
    note=TB + "the iterator theorem covers one primary and at most one replica owner per partition (stable cluster, ReplicaCount<=2); with two "
         "owners in one list the state machine as coded terminates only thanks to the periodic re-fetch of the routing table "
         "(C12_two_replica_owners_need_refetch), which is timing and not modelled: ReplicaCount 3 is judged by the predicate only; "
@@ -143,7 +143,7 @@ CLAIMS = {
         "owner; balance from the ring's load fact. Tied to internal/cluster/routingtable by an exact differential of "
         "distributePrimaryCopies / distributeBackups / processLeftOverDataReports on thousands of generated cases per run and by "
         "end-to-end membership scripts (join, graceful stop, kill, re-join under the same address, crash+restart at once) on real "
-        "clusters judged by the executable valid_table.",
+        "clusters judged by the executable valid_table. Also with full members holding data and the members' own timers only (the harness watches): after the start-up coordinator has gone and a member has joined, the table settles by itself.",
    note=TB + "the hash ring (buraksezer/consistent) and memberlist are oracles (the three ring facts are re-validated on every ring used; "
         "membership is an input); member names unique, ids and birthdates collision free; 'eventually' is judged with timeouts (settle) "
         "on the real cluster; a coordinator recomputation blocked for >= 30 s is reported as a routing stall (D39, fixed).",
@@ -157,7 +157,7 @@ CLAIMS = {
         "operation atomic (Go runtime); concurrent publishers are judged by the python predicate only.",
    ref="DESIGN.md 9 C14, docs/DESIGN-C14.md"),
  "C15": dict(
-   text='Theorems: for every Put configuration (at most one of EX/PX/EXAT/PXAT, at most one of NX/XX) and for Expire/PExpire, Lock EX|PX, Lease/PLease, Scan options, Get/GetPut RW, Destroy LC, GetEntry/DelEntry RC, the server parses the command the client-side builders produce into exactly the same configuration (C15_*_roundtrip over Model/Proto.v), and the owner-side semantics (Model/DMap.v) depends on the decoded configuration only. Executed: exhaustive grid of operations x options x prior state x 7 client paths (embedded owner/non-owner/backup, cluster client, raw RESP, pipeline) on real clusters, judged by one reference semantics for all paths and compared with the model.',
+   text='Theorems: for every Put configuration (at most one of EX/PX/EXAT/PXAT, at most one of NX/XX) and for Expire/PExpire, Lock EX|PX, Lease/PLease, Scan options, Get/GetPut RW, Destroy LC, GetEntry/DelEntry RC, the server parses the command the client-side builders produce into exactly the same configuration (C15_*_roundtrip over Model/Proto.v), and the owner-side semantics (Model/DMap.v) depends on the decoded configuration only. Executed: exhaustive grid of operations x options x prior state x 7 client paths (embedded owner/non-owner/backup, cluster client, raw RESP, pipeline) on real clusters, judged by one reference semantics for all paths and compared with the model. Several commands queued in one pipeline before Exec (pipebatch) are judged and modelled as individual operations.',
    note=TB + 'strconv float/int formatting enter the round-trip theorems as explicit hypotheses (oracles); durations are multiples of 1 ms; the float seconds->milliseconds conversion is an oracle.',
    ref='DESIGN.md 9 C15, docs/DESIGN-C16.md'),
  "C20": dict(
